@@ -1,9 +1,11 @@
-import ApolloModel.Proofs.Strings4
+import ApolloModel.Proofs.StringsBlock3
 /-
 C09 — String values and descriptions survive serialization.
 
 Model: Model/Strings.lean `serializeStringValue` / `quotedForm` / `blockForm` / `canBeBlockString`
-mirror ast/serialize.rs; decoding is the C06 model.  Tied by the correspondence stream S′:
+mirror ast/serialize.rs; decoding is the C06 model (`decodeStringToken`, lexer-independent).
+Both forms are theorems for every string: `quoted_roundtrip`, `block_roundtrip`, `string_roundtrip`
+(Proofs/Strings2.lean, Proofs/StringsBlock*.lean).  Tied by the correspondence stream S′:
 (string, indent prefix, level, is_description) ↦ printed literal, 260k cases, plus re-parsing the
 printed literal and whole documents with the real parser.
 -/
@@ -37,13 +39,45 @@ theorem quoted_branch_roundtrip (p : Option Str) (level : Nat) (isDescription : 
     rw [if_neg (by rw [hc]; exact Bool.false_ne_true)]
     exact quoted_roundtrip s
 
-/-- PARTIAL — the block-form half, stated in full: when `can_be_block_string s` holds and the
-    indent prefix is white space, BlockStringValue of what `serialize_block_string` prints is `s`.
-    Not yet a theorem; decided by the correspondence + re-parse oracle (all strings ≤5/6 over
-    {" \ LF CR space tab a é U+0001 U+007F} × 8 configurations, and 20k/200k random). -/
+/-- The block-form half, stated in full: when `can_be_block_string s` holds and the indent prefix is
+    white space, BlockStringValue of what `serialize_block_string` prints is `s`. -/
 def block_roundtrip_statement : Prop :=
   ∀ (pre : Str) (level : Nat) (s : Str), pre.all isWs = true → canBeBlockString s = true →
     decodeStringToken (blockForm pre level s) = some s
+
+/-- **Block form** — for every string accepted by `can_be_block_string`, every indent prefix made of
+    spaces and tabs (including the empty one) and every nesting level: the common indentation that
+    BlockStringValue removes is exactly `prefix^level`, the leading and trailing printed lines are
+    blank and removed, every `"""` printed as `\"""` comes back (also after a backslash), and the
+    result is `s` — in the single-line and in the multi-line layout. -/
+theorem block_roundtrip (pre : Str) (level : Nat) (s : Str) (hpre : pre.all isWs = true)
+    (h : canBeBlockString s = true) : decodeStringToken (blockForm pre level s) = some s :=
+  Strs.block_roundtrip pre level s hpre h
+
+theorem block_roundtrip_statement_holds : block_roundtrip_statement :=
+  fun pre level s hpre h => block_roundtrip pre level s hpre h
+
+/-- **C09** — every string value and every description, in both forms, under every configuration
+    (no indentation, or any white-space indent prefix at any nesting level), decodes back to exactly
+    the string that was serialized. -/
+theorem string_roundtrip (p : Option Str) (level : Nat) (isDescription : Bool) (s : Str)
+    (hp : ∀ pre, p = some pre → pre.all isWs = true) :
+    decodeStringToken (serializeStringValue p level isDescription s) = some s := by
+  unfold serializeStringValue
+  cases p with
+  | none => exact quoted_roundtrip s
+  | some pre =>
+    simp only []
+    split
+    · rename_i hc
+      simp only [Bool.and_eq_true] at hc
+      exact block_roundtrip pre level s (hp pre rfl) hc.2
+    · exact quoted_roundtrip s
+
+/-- The white-space guard on the prefix is needed: BlockStringValue only strips spaces and tabs, so
+    an indent prefix with any other character stays in the value. -/
+theorem block_roundtrip_needs_ws_prefix :
+    decodeStringToken (blockForm ['x'] 1 ['a', '\n', 'b']) = some ['x', 'a', '\n', 'x', 'b', '\n', 'x'] := by decide
 
 /-- the block form is only chosen for strings without CR (BlockStringValue can never produce one) -/
 theorem block_never_contains_cr (s : Str) (h : canBeBlockString s = true) : s.contains '\r' = false := by
